@@ -10,7 +10,9 @@
 (*                 Return                                                  *)
 (*   queue mode    Enqueue / EnqueueFull, Dequeue, the same send steps run *)
 (*                 by the single worker, WorkerSkipFlush, IdleFlush,       *)
-(*                 WorkerDone                                              *)
+(*                 WorkerDone; in direct mode the worker only dials (under *)
+(*                 the send lock) -- WorkerIdleFlush is the refuted design *)
+(*                 in which it also flushes the shared writer when idle    *)
 (*   environment   PeerClose, PeerReset (also in the middle of a socket     *)
 (*                 write, see Push); a peer that STALLS (alive, but not    *)
 (*                 reading: the client's write deadline expires in the     *)
@@ -274,6 +276,23 @@ IdleFlush(d, ok, kind) ==
   /\ Push(conn, wbuf, d, ok, kind)
   /\ wbuf' = (IF ok THEN <<>> ELSE SubSeq(wbuf, d + 1, Len(wbuf))) /\ werr' = ~ok
   /\ UNCHANGED <<conf, lock, pc, cur, fr, conn, nconn, listener, queue, reg, okset, errset, res, streak>>
+
+\* NOT part of the design (MC_OneWay enables it only in a configuration TLC must refute; the trace specification has
+\* no step for it): the worker acting ON ITS OWN while idle in DIRECT mode.  GetOneWayTcpClient starts the worker in
+\* direct mode too; there it has no pack of its own, and the writer and the connection belong to whichever sender holds
+\* the send lock.  "Flush what sits in the write buffer when nothing was dequeued for a while" touches the writer
+\* WITHOUT that lock: if the idle round falls between a sender's buffered write and the end of that sender's flush
+\* (pc = "written": a healthy connection whose collector reads slowly keeps the sender there for seconds), the worker
+\* hands the first u units of the same buffer region to the socket while the sender's flush still owns them (two
+\* unsynchronised users of one bufio.Writer: neither sees the other's progress) -- the region goes out again with the
+\* sender's own flush.  A frame arrives twice (u = the whole buffer: InOrderAtMostOnce) or a copy of its beginning is
+\* wedged into the stream (u = a part of it: FramesWhole), on a connection on which nothing went wrong.
+WorkerIdleFlush(u) ==
+  /\ ~conf.queue /\ pc[Worker] = "idle" /\ conn # 0 /\ ~werr /\ wbuf # <<>> /\ net[conn] = "up"
+  /\ \E s \in Sender : pc[s] = "written"
+  /\ u \in 1..Len(wbuf)
+  /\ wire' = [wire EXCEPT ![conn] = @ \o SubSeq(wbuf, 1, u)]
+  /\ UNCHANGED <<conf, lock, pc, cur, fr, conn, nconn, wbuf, werr, net, listener, queue, reg, okset, errset, res, faults, streak>>
 
 \* ------------------------------------------------------------ environment
 PeerGoes(c, kind) ==
